@@ -131,6 +131,9 @@ func c20Server() (*samlidp.Server, *samlidp.MemoryStore) {
 			}}}
 	}
 	put("/services/s1", samlidp.Service{Name: "s1", Metadata: md})
+	// the same service provider is registered under a second name as well (an alias): removing or replacing one of the two names leaves
+	// the entity ID in use
+	put("/services/s3", samlidp.Service{Name: "s3", Metadata: md})
 	var mdx saml.EntityDescriptor
 	xml.Unmarshal(c19Metadata("X"), &mdx)
 	put("/services/s2", samlidp.Service{Name: "s2", Metadata: mdx})
